@@ -29,7 +29,7 @@ type c15 struct {
 }
 
 func checkC15(c *Ctx) {
-	c.Rule("C15.R1", "Similar, evaluated in both directions on model pairs for each of the eight types: true for a perturbed copy, also with members reordered and closed rings rotated; false when a vertex is displaced, a member or vertex is added or removed, a line is reversed, or a duplicated member stands against a different one; and always symmetric")
+	c.Rule("C15.R1", "Similar, evaluated in both directions on model pairs for each of the eight types: true for a perturbed copy, also with members reordered and closed rings rotated; false when a vertex is displaced, a member or vertex is added or removed (a vertex also in one ring of a polygon or of a multi-polygon's member), a line is reversed, or a duplicated member stands against a different one; and always symmetric")
 	c.Rule("C15.R2", "Similar is false for every ordered pair of different geometry types (model evaluation)")
 	c.Rule("C15.R3", "model evaluation of Point.Similar on two points differing in one coordinate (each axis), symbolic coordinates and tolerance under eleven separating valuations: the tolerance test is |a−b| < tol, strict (a difference of exactly the tolerance and a zero tolerance on equal values are rejected) and bounding both signs of the difference")
 	pk := c.P.Pkg("geom")
